@@ -16,14 +16,14 @@ from vmon.util import derive_rng, shash
 
 LEVEL = "exploration"
 MANIFEST = {
-    "text": "For seeded random programs (same space as C01) every optimizer stage is run under a step monitor (calls of simplify_once / lower_once / rewrite, rule firings) with a budget of 400 + 150 x plan nodes (observed maximum is recorded; budget is >10x it); RuntimeError('does not converge') or a budget overrun is a violation. The optimized plan's name and tree are compared between repetitions, after gc.collect(), and after rebuilding the whole program from fresh source objects; optimize(optimize(q)) and optimize_until(optimize(q), S) must not raise and must compute the same result.",
+    "text": "For seeded random programs (same space as C01) every optimizer stage is run under a step monitor (calls of simplify_once / lower_once / rewrite, rule firings) with a budget of 1000 + 400 x plan nodes (observed maximum is recorded; budget is >10x it); RuntimeError('does not converge') or a budget overrun is a violation. The optimized plan's name and tree are compared between repetitions, after gc.collect(), and after rebuilding the whole program from fresh source objects; optimize(optimize(q)) and optimize_until(optimize(q), S) must not raise and must compute the same result.",
     "note": "Bounded-progress restatement of termination; a per-case wall-clock timeout is reported as inconclusive. Cross-process / hash-seed determinism of names is decided by C08.",
     "technique": "runtime monitoring: step-counter monitor with budget on the real rewrite drivers + name/plan equality oracle over repeated and nested optimize() calls",
     "design_ref": "DESIGN.md section 4, C19",
 }
 RULE = ("programs from the typed generator; non-trivial = optimize() changed the plan (>=1 rule fired); distinct by program hash; "
         "per program: 5 stages under the step budget, 3 repetitions (same objects, after gc, rebuilt from scratch), optimize∘optimize, optimize_until∘optimize for 3 stages")
-ASSUMPTIONS = ["budget = 400 + 150 * number of nodes of the logical plan for simplify_once and lower_once calls per optimize_until call"]
+ASSUMPTIONS = ["budget = 1000 + 400 * number of nodes of the logical plan for simplify_once and lower_once calls per optimize_until call"]
 
 STAGES = ["simplified-logical", "tuned-logical", "physical", "simplified-physical", "fused"]
 CONFIG = {
@@ -72,7 +72,9 @@ def _run_case(case, prog, method):
     q = b.out_dx
     flags = {"order": b.out_pd.order, "index": b.out_pd.index}
     nodes = len(list(q.expr.walk()))
-    budget = 400 + 150 * nodes
+    # linear in the plan size; nested optimizations started by a rule (eager quantile computes of set_index / sort_values, one per
+    # such node) count against it, so the factor is generous - an exponential blow-up (2^depth) still exceeds it at depth ~12
+    budget = 1000 + 400 * nodes
     viol = None
     names = {}
     M.RULES.reset()
